@@ -46,7 +46,10 @@ spec('inv_ikesa_d', {'s': S, 'd': Int}, Bool,
      'and implies(s.peer_msg_id > 0, s.last_sent_response_data is not None) '
      'and (s.new_ike_sa is None or (live_ref(s.new_ike_sa) and not (s.new_ike_sa == s))) '
      # I6 (C16): an IKE_SA that has been rekeyed (REKEYED, or deleting itself after its own rekey) has a successor
-     'and implies(s.state == 20 or s.state == 16, s.new_ike_sa is not None)')
+     'and implies(s.state == 20 or s.state == 16, s.new_ike_sa is not None) '
+     # I4 (C02): while the IKE_AUTH exchange is open the IKE_SA_INIT octets both sides sign have been stored
+     'and implies(s.state == 1 or s.state == 3, s.ike_sa_init_req_data is not None '
+     '    and s.ike_sa_init_res_data is not None)')
 # the successor IKE_SA an entry point leaves in new_ike_sa is the one it found there or one it allocated
 # itself (so writes through self.new_ike_sa never reach an unrelated pre-existing IKE_SA)
 spec('new_sa_local', {'s': S}, Bool,
